@@ -253,7 +253,7 @@ impl Check for C13 {
     }
     fn meta(&self, tier: Tier) -> Meta {
         Meta {
-            rule: "case = (target tree, sequence of remaps); targets {x, x+2y+4z, x*y-z, min(x,y)+v with a free variable v}; remap alphabet of 12: remap_affine with {translation, non-uniform scale incl. negative, 90-degree rotations about z and x, shear with translation, a general rotation} and remap_xyz with {a permutation, non-linear expressions (x*y, y+1, z), a constant axis, expressions using the free variable, a duplicated axis, min/max expressions}; EVERY sequence up to the length bound applied through the builder API; additionally remaps applied to a sub-tree before combination ((A.remap(r1) op B).remap(r2)) and one sub-tree shared under two different frames (S.remap(r1) + S.remap(r2)).remap(r3); evaluated (import + ref32) at 27 dyadic points x 2 values of v and compared with f64 substitution semantics (later remaps act on coordinates first): exactly when all entries are dyadic, 1e-5 relative otherwise; consecutive remap_affine calls must collapse into one node".into(),
+            rule: "case = (target tree, sequence of remaps); targets {x, x+2y+4z, x*y-z, min(x,y)+v with a free variable v}; remap alphabet of 12: remap_affine with {translation, non-uniform scale incl. negative, 90-degree rotations about z and x, shear with translation, a general rotation} and remap_xyz with {a permutation, non-linear expressions (x*y, y+1, z), a constant axis, expressions using the free variable, a duplicated axis, min/max expressions}; EVERY sequence up to the length bound applied through the builder API; additionally remaps applied to a sub-tree before combination ((A.remap(r1) op B).remap(r2)) and one sub-tree shared bare and under two different frames, in both operand orders ((S.remap(r1) - 2 S.remap(r2) + S).remap(r3) and (S + (S.remap(r1) - 2 S.remap(r2))).remap(r3)); evaluated (import + ref32) at 27 dyadic points x 2 values of v and compared with f64 substitution semantics (later remaps act on coordinates first): exactly when all entries are dyadic, 1e-5 relative otherwise; consecutive remap_affine calls must collapse into one node".into(),
             bounds: match tier {
                 Tier::Quick => "sequences of length <= 3".into(),
                 Tier::Thorough => "sequences of length <= 4".into(),
@@ -369,7 +369,7 @@ impl Check for C13 {
                 // one sub-tree (same Arc) under two different frames
                 for r2 in 0..nr {
                     for r3 in std::iter::once(None).chain((0..nr).map(Some)) {
-                        for si in [1usize, 2, 3] {
+                        for (si, bare_first) in [(1usize, false), (2, false), (3, false), (1, true), (2, true), (3, true)] {
                             let s = sub;
                             sub += 1;
                             if !cx.case(s) {
@@ -384,14 +384,20 @@ impl Check for C13 {
                             let fs: Fun = Arc::new(move |p, v| fs2(p, v) * 0.5 + fs2(p, v));
                             let (t1, f1, e1, n1) = apply_seq(&shared, &fs, &rs, &[first]);
                             let (t2, f2, e2, n2) = apply_seq(&shared, &fs, &rs, &[r2]);
-                            let tc = t1 - t2 * 2.0 + shared.clone();
+                            // both operand orders: the importer walks the right operand
+                            // first, so the bare use is met before or after the remapped ones
+                            let tc = if bare_first { shared.clone() + (t1 - t2 * 2.0) } else { t1 - t2 * 2.0 + shared.clone() };
                             let fs3 = fs.clone();
                             let fc: Fun = Arc::new(move |p, v| f1(p, v) - f2(p, v) * 2.0 + fs3(p, v));
                             let seq: Vec<usize> = r3.into_iter().collect();
                             let (tree, fun, e3, n3) = apply_seq(&tc, &fc, &rs, &seq);
                             compare(
                                 cx,
-                                &format!("S=({}) shared: (S.[{n1}] - 2*S.[{n2}] + S).[{n3}]", ts[si].0),
+                                &if bare_first {
+                                    format!("S=({}) shared: (S + (S.[{n1}] - 2*S.[{n2}])).[{n3}]", ts[si].0)
+                                } else {
+                                    format!("S=({}) shared: (S.[{n1}] - 2*S.[{n2}] + S).[{n3}]", ts[si].0)
+                                },
                                 "a sub-tree shared under two frames is not substituted per frame",
                                 &tree,
                                 &fun,
